@@ -160,22 +160,28 @@ def edit_pairs_of(r):
     return out
 
 
-def write_tlc(tag, *, procs=2, use_temp=True, workers=4, coverage=False):
+def write_tlc(tag, *, procs=2, use_temp=True, unique=True, workers=4, coverage=False, invariants=None):
     cfg = f"""CONSTANTS
   Procs = {{{", ".join(f"p{i}" for i in range(1, procs + 1))}}}
   Tags = {{1, 2}}
   UseTemp = {"TRUE" if use_temp else "FALSE"}
   MaxJunk = 2
   None = None
+  TempIds = {{{", ".join(f"t{i}" for i in range(1, procs + 3))}}}
+  UniqueTemp = {"TRUE" if unique else "FALSE"}
+SYMMETRY TempSymmetry
 SPECIFICATION Spec
 CONSTRAINT JunkBound
 INVARIANT TypeOK
 INVARIANT C27_FinalNeverPartial
 INVARIANT C27_ReaderSeesWholeEntries
 INVARIANT C27_ClosedTempIsWhole
+INVARIANT C27_TempNamesPrivate
 PROPERTY C27_FinalChangesAtomically
 PROPERTY C27_ClearLeavesWritersAlone
 """
+    if invariants is not None:
+        cfg = cfg[: cfg.index("INVARIANT")] + "".join(f"INVARIANT {i}\n" for i in invariants)
     return core.run_tlc(PID, "BCCacheWrite", cfg, workers=workers, name=f"tlc_{tag}", coverage=coverage,
                         timeout=3000, heap="2g")
 
@@ -200,10 +206,14 @@ class _Crash:
     snapshot = None     # {file name: bytes} of the cache directory at the moment of death
     dead = False        # the load has been killed: whatever its exception handlers do is not observed
     hooked = False
+    proc = 1            # which writer ("process") the file operations seen right now belong to
+    tag = 1             # the source version a writer starting now compiles
+    keep_log = False    # the action at the armed point is another WRITER: its file operations are recorded too
 
 
 def _log(ev):
     if _Crash.log is not None and not _Crash.dead:
+        ev.setdefault("p", _Crash.proc)
         _Crash.log.append(ev)
 
 
@@ -211,6 +221,9 @@ def _die():
     if _Crash.action is not None:
         # another environment acts in the middle of the write; its file operations are not the writer's
         act, _Crash.action, _Crash.armed = _Crash.action, None, None
+        if _Crash.keep_log:
+            act()
+            return
         log, _Crash.log = _Crash.log, None
         try:
             act()
@@ -238,11 +251,14 @@ def _audit(event, args):
         if str(args[0]).startswith(root):
             if stage == "preTemp":
                 _die()
-            _log({"ev": "create"})
     elif event == "open":
-        if stage == "preTemp" and isinstance(args[0], str) and args[0].startswith(root) \
+        if isinstance(args[0], str) and os.path.dirname(args[0]) == root \
                 and isinstance(args[2], int) and args[2] & (os.O_WRONLY | os.O_RDWR):
-            _die()
+            if stage == "preTemp" and _Crash.armed is not None:
+                _die()
+            # a file of the cache directory is opened for writing: that is the writer's temporary file
+            # (mkstemp's os.open as well as a plain open(..., "wb")); its NAME is part of the protocol
+            _log({"ev": "create", "file": os.path.basename(args[0]), "tag": _Crash.tag})
     elif event == "os.rename":
         if str(args[0]).startswith(root):
             if stage == "tempFull":
@@ -601,6 +617,62 @@ class Real:
             self.cause.clear()
         return obs
 
+    def load_during_write(self, e, n, stage, hint, version):
+        """the load by environment e runs to its end, but when its write reaches `stage` the source
+        changes to `version` and ANOTHER writer -- an environment of the same configuration with its
+        own FileSystemBytecodeCache object on the same directory, i.e. another process -- loads the
+        template and stores its entry; then the first writer continues.  File operations of both are
+        recorded (p = 1 / 2).  Returns (observation of the first load, observation of the second)."""
+        off = self.point_offset(stage, hint)
+        env = self.envs[e - 1]
+        if getattr(self, "env_other", None) is None:
+            self.env_other = make_env(self.cfgs[e - 1], self.j.DictLoader(self.mapping), self.bc_other)
+        inner = []
+
+        def other_writer():
+            mine = _Crash.tag
+            _Crash.proc, _Crash.tag = 2, version
+            try:
+                self.mapping[n] = self.text(n, version)
+                o = observe(lambda: self.env_other.get_template(n).render(**self.ctx()))
+                inner.append(o)
+                _log({"ev": "loaded" if o[0] == "text" else "raised"})
+            finally:
+                _Crash.proc, _Crash.tag = 1, mine
+
+        _Crash.armed, _Crash.root, _Crash.dead = (stage, off), self.dir, False
+        _Crash.action, _Crash.keep_log = other_writer, True
+        try:
+            obs = observe(lambda: env.get_template(n).render(**self.ctx()))
+        finally:
+            reached = _Crash.action is None
+            _Crash.armed = _Crash.action = None
+            _Crash.keep_log = False
+            _Crash.proc = 1
+        self.last_hint = off
+        self.point_reached = reached
+        return obs, (inner[0] if inner else None)
+
+    def entry_version(self, n):
+        """which source version the stored entry of n belongs to: the version v whose checksum the
+        entry carries, provided the entry's code renders what version v renders; 0 when checksum and
+        code disagree (or nothing fits)"""
+        with open(self.path(n), "rb") as f:
+            data = f.read()
+        m, k = self.magic_end, self.cks_end
+        cfg = self.cfgs[0]
+        renv = self.refenvs[cfg]
+        for v in (1, 2, 3):
+            if data[m:k] != pickle.dumps(self.bc.get_source_checksum(self.text(n, v)), 2):
+                continue
+
+            def go():
+                code = marshal.loads(data[k:])
+                return renv.template_class.from_code(renv, code, renv.make_globals(None), None).render(**self.ctx())
+
+            return v if observe(go) == self.ref(n, v, cfg, 1) else 0
+        return 0
+
     def crash(self, e, n, stage, hint):
         """the load dies at `stage`: afterwards the directory is what it was at that moment"""
         off = self.point_offset(stage, hint)
@@ -950,12 +1022,16 @@ def record_write_traces(args):
         def final_event():
             got, _ = real.project()
             junk = len([fn for fn in os.listdir(real.dir) if os.path.join(real.dir, fn) != real.path(n)])
-            return {"ev": "final", "c": got.get(n, -1), "junk": junk}
+            ev = {"ev": "final", "c": got.get(n, -1), "junk": junk, "p": 0}
+            if ev["c"] == 6:
+                ev["tag"] = real.entry_version(n)
+            return ev
 
         def scenario(name, steps):
             """steps: list of ("load",) ("kill", stage, off) ("fault", kind, off) ("clear",) ("modify", v)"""
             real.reset(seed)
             _Crash.root = real.dir
+            _Crash.proc = _Crash.tag = 1
             log = _Crash.log = []
             try:
                 for st in steps:
@@ -965,6 +1041,10 @@ def record_write_traces(args):
                     elif st[0] == "loadclear":
                         o = real.load_during_clear(1, n, st[1], st[2])
                         log.append({"ev": "loaded" if o[0] == "text" else "raised"})
+                    elif st[0] == "loadwrite":
+                        o, _ = real.load_during_write(1, n, st[1], st[2], st[3])
+                        log.append({"ev": "loaded" if o[0] == "text" else "raised", "p": 1})
+                        _Crash.tag = st[3]
                     elif st[0] == "kill":
                         real.crash(1, n, st[1], st[2])
                     elif st[0] == "fault":
@@ -982,13 +1062,19 @@ def record_write_traces(args):
                         log.append({"ev": "clear"})
                     elif st[0] == "modify":
                         real.step(["modify", n, st[1]])
+                        _Crash.tag = st[1]
                     log.append(final_event())
             finally:
                 _Crash.log = None
                 _Crash.fault = None
+                _Crash.proc = _Crash.tag = 1
+            ids = {}
             for e in log:
+                e.setdefault("p", 1)
                 if e["ev"] == "write":
                     e["c"] = cls(e.pop("pos"))
+                elif e["ev"] == "create":      # temporary files numbered in order of first appearance
+                    e["name"] = ids.setdefault(e.pop("file"), len(ids) + 1)
             traces.append((name, log))
 
         boundary = {0, 1, m - 1, m, m + 1, k - 1, k, k + 1, full - 1}
@@ -1005,7 +1091,21 @@ def record_write_traces(args):
         for stage in ("preTemp", "tempFull", "replaced"):
             scenario(f"killed at {stage}", [("kill", stage, 0), ("load",)])
             scenario(f"killed at {stage} over an old entry", [("load",), ("modify", 2), ("kill", stage, 0), ("load",)])
+        # two writers of the same key, interleaved: the source changes and a second environment (own cache
+        # object, same directory) stores the entry while the first is at `stage` of its write
+        for stage in ("preTemp", "tempFull"):
+            scenario(f"another environment writes the changed source at {stage}",
+                     [("loadwrite", stage, 0, 2), ("load",), ("load",)])
+            scenario(f"another environment writes the changed source at {stage}, over an old entry, then a kill",
+                     [("load",), ("modify", 2), ("loadwrite", stage, 0, 3), ("load",), ("modify", 2), ("kill", "tempPartial", k),
+                      ("load",)])
         for off in offsets:
+            if off % (step * 3) == 0 or off in boundary:
+                scenario(f"another environment writes the changed source after {off} bytes",
+                         [("loadwrite", "tempPartial", off, 2), ("load",), ("load",)])
+            if off in boundary:
+                scenario(f"another environment writes the changed source after {off} bytes, over an old entry",
+                         [("load",), ("modify", 2), ("loadwrite", "tempPartial", off, 3), ("load",)])
             scenario(f"killed after {off} bytes", [("kill", "tempPartial", off), ("load",)])
             scenario(f"another environment clears after {off} bytes", [("loadclear", "tempPartial", off), ("load",)])
             if off % (step * 3) == 0 or off in boundary:
@@ -1024,11 +1124,13 @@ def validate_write_traces(ck, traces):
     tf = d / "traces.json"
     tf.write_text(json.dumps([t for _, t in traces]))
     cfg = """CONSTANTS
-  Procs = {p1}
-  Tags = {1}
+  Procs = {1, 2}
+  Tags = {1, 2, 3}
   UseTemp = TRUE
   MaxJunk = 9
   None = None
+  TempIds = {1, 2, 3, 4, 5, 6, 7, 8, 9, 10, 11, 12}
+  UniqueTemp = TRUE
 SPECIFICATION TSpec
 CONSTRAINT Collect
 INVARIANT C27_FinalNeverPartial
@@ -1049,7 +1151,32 @@ POSTCONDITION Post
         partial = [e for e in tr if e["ev"] == "final" and 0 <= e["c"] < 6]
         raised = [j for j, e in enumerate(tr) if e["ev"] == "raised"
                   and not any(x["ev"] == "fault" for x in tr[max(0, j - 6):j])]
-        if partial:
+        creates = [e for e in tr if e["ev"] == "create"]
+        live, shared = {}, []         # writer -> name of its temporary file while it is in progress
+        for e in tr:
+            if e["ev"] == "create":
+                if any(nm == e["name"] for q, nm in live.items() if q != e["p"]):
+                    shared.append(e)
+                live[e["p"]] = e["name"]
+            elif e["ev"] in ("rename", "remove", "killed"):
+                live.pop(e["p"], None)
+        mixed = [e for e in tr if e["ev"] == "final" and e["c"] == 6 and e.get("tag") == 0]
+        if mixed:
+            bad += 1
+            ck.violation({"kind": "write-trace", "scenario": name, "trace": tr},
+                         f"write path, scenario '{name}': the stored entry carries the checksum of one source version "
+                         f"and code that does not belong to it (two writers' bytes mixed): it passes for up to date and "
+                         f"stale code is served; file operations {[(e['p'], e['ev'], e.get('name')) for e in tr if e['ev'] in ('create', 'rename', 'rename-failed')]} "
+                         f"are not a behaviour of BCCacheWrite.tla",
+                         {"kind": "bcc", "defect": "final-entry-mixes-two-writers", "stage": "trace"})
+        elif shared:
+            bad += 1
+            ck.violation({"kind": "write-trace", "scenario": name, "trace": tr},
+                         f"write path, scenario '{name}': two writers of the same key used the SAME temporary file "
+                         f"(name #{shared[0]['name']}): BCCacheWrite.tla demands a private temporary file per writer "
+                         f"(C27_TempNamesPrivate), TLC rejects the trace {[(e['p'], e['ev']) for e in tr][:14]}",
+                         {"kind": "bcc", "defect": "temp-file-shared-by-two-writers", "stage": "trace"})
+        elif partial:
             bad += 1
             ck.violation({"kind": "write-trace", "scenario": name, "trace": tr},
                          f"write path, scenario '{name}': the file operations {[e['ev'] for e in tr]} are not a "
@@ -1071,6 +1198,138 @@ POSTCONDITION Post
 
 
 # ---------------------------------------------------------------------------
+# one file under several template names (spec/BCCacheAlias.tla)
+# ---------------------------------------------------------------------------
+
+# search path [root, root/theme]: root/theme/page.html is "theme/page.html", "page.html" and "./page.html"
+ALIAS_NAMES = {"theme/page.html": "fp", "page.html": "fp", "./page.html": "fp", "other.html": "fo"}
+ALIAS_FILES = {"fp": "theme/page.html", "fo": "other.html"}
+
+
+def alias_tlc(tag, *, mode="name+file", graph=False, invariants=("TypeOK", "C27_CodeCompiledForOwnName",
+                                                                 "C27_EntriesKeptApartByName")):
+    d = core.workdir(PID, f"mc_{tag}")
+    mod = d / "MCBCCacheAlias.tla"
+    fo = " @@ ".join(f'{core.tla_str(n)} :> {core.tla_str(f)}' for n, f in ALIAS_NAMES.items())
+    mod.write_text(f"""---- MODULE MCBCCacheAlias ----
+EXTENDS BCCacheAlias
+MCNames == {core.tla_str(set(ALIAS_NAMES))}
+MCFiles == {core.tla_str(set(ALIAS_FILES))}
+MCFileOf == {fo}
+====
+""")
+    cfg = f"""CONSTANTS
+  Names <- MCNames
+  Files <- MCFiles
+  FileOf <- MCFileOf
+  NVersions = 2
+  KeyMode = "{mode}"
+  None = None
+  EmitGraph = {"TRUE" if graph else "FALSE"}
+SPECIFICATION Spec
+""" + "".join(f"INVARIANT {i}\n" for i in invariants)
+    return core.run_tlc(PID, "MCBCCacheAlias", cfg, workers=2, name=f"tlc_{tag}", extra_modules=[mod],
+                        timeout=1800, heap="1g")
+
+
+def alias_source(f, v):
+    # shows the template's own name three ways: {{ self }}, a relative include resolved by join_path, Template.name
+    return "{{ self }}|{% include './header.html' %}|" + f"{f}.v{v}"
+
+
+def replay_alias(args):
+    """walk a real environment (FileSystemLoader over [root, root/theme], join_path resolving './x' relative to
+    the including template, real FileSystemBytecodeCache; a fresh Environment + cache object per load) along
+    every edge of BCCacheAlias.tla's graph; a load must show what a cache-less environment shows for TLC's
+    `allowed` = (current version of the file, compiled for the loaded name)"""
+    core.use_repo()
+    import posixpath
+    import jinja2
+    edges, seed = args
+
+    class RelEnvironment(jinja2.Environment):
+        def join_path(self, template, parent):
+            if template.startswith("./"):
+                return posixpath.normpath(posixpath.join(posixpath.dirname(parent), template))
+            return template
+
+    root = tempfile.mkdtemp(prefix="jv_c27a_", dir=SCRATCH)
+    cdir = tempfile.mkdtemp(prefix="jv_c27c_", dir=SCRATCH)
+    os.mkdir(os.path.join(root, "theme"))
+    for p_, t in (("header.html", "ROOT-HEADER"), ("theme/header.html", "THEME-HEADER")):
+        with open(os.path.join(root, p_), "w") as f:
+            f.write(t)
+    stamp = [0]
+
+    def put(f, v):
+        p_ = os.path.join(root, ALIAS_FILES[f])
+        with open(p_, "w") as fh:
+            fh.write(alias_source(f, v))
+        stamp[0] += 10
+        os.utime(p_, (1_000_000 + stamp[0], 1_000_000 + stamp[0]))
+
+    def env(cached):
+        return RelEnvironment(loader=jinja2.FileSystemLoader([root, os.path.join(root, "theme")]), cache_size=0,
+                              bytecode_cache=jinja2.FileSystemBytecodeCache(cdir) if cached else None)
+
+    def show(e, n):
+        def go():
+            t = e.get_template(n)
+            return [t.name, t.render()]
+        return observe(go)
+
+    rec = Recorder({"kind": "alias"})
+    viol = []
+
+    class RealA:
+        def close(self):
+            pass
+
+    def make():
+        del rec.trail[:]
+        for f in ALIAS_FILES:
+            put(f, 1)
+        for fn in os.listdir(cdir):
+            os.remove(os.path.join(cdir, fn))
+        return RealA()
+
+    def apply(real, e, fresh):
+        op = e["a"]
+        rec.trail.append(op)
+        if op[0] == "modify":
+            put(op[1], op[2])
+        elif op[0] == "clear":
+            jinja2.FileSystemBytecodeCache(cdir).clear()
+        elif op[0] == "load":
+            n = op[1]
+            got = show(env(True), n)
+            al, res = e["allowed"], e["res"]
+            if al["v"] != e["s"]["src"][ALIAS_NAMES[n]] or al["n"] != n:
+                raise core.MachineryError(f"BCCacheAlias: allowed {al} is not the current source for {n}")
+            want = show(env(False), al["n"])       # the property's own oracle: a cache-less environment
+            if got != want:
+                other = [m for m in ALIAS_NAMES if m != n and ALIAS_NAMES[m] == ALIAS_NAMES[n]
+                         and got == show(env(False), m)]
+                fp = {"kind": "bcc", "defect": "code-of-another-template-name-served" if other else "wrong-outcome-alias"}
+                if len(viol) < 3:
+                    viol.append({"case": {"kind": "alias", "ops": list(rec.trail)}, "fp": fp,
+                                 "what": f"one file under several template names, search path [root, root/theme], after "
+                                         f"{rec.trail[-5:]}: loading {n!r} through the bytecode cache gave {got}"
+                                         + (f", which is what template {other[0]!r} (same file) shows" if other else "")
+                                         + f"; a cache-less environment shows {want} (spec: code compiled for name "
+                                         f"{al['n']!r} from version {al['v']})"})
+                return "resync" if res == al else True
+        return True
+
+    try:
+        G = graphwalk.Graph(edges, lambda st: not st["fs"] and all(v == 1 for v in st["src"].values()))
+        stats = graphwalk.walk(G, make, apply, max_bad=1)
+    finally:
+        shutil.rmtree(root, ignore_errors=True)
+        shutil.rmtree(cdir, ignore_errors=True)
+    stats["viol"] = viol
+    return stats
+
 
 def edges_of(r):
     seen, out = set(), []
@@ -1139,6 +1398,10 @@ def run(ck):
                                                        invariants=["C27_DamagedIsMiss"]), "C27_DamagedIsMiss"),
             "direct write instead of temp+replace": (ex.submit(write_tlc, "wdirect", use_temp=False),
                                                      "C27_FinalNeverPartial"),
+            "one fixed temporary name shared by all writers": (
+                ex.submit(write_tlc, "wfixed", unique=False, invariants=["C27_FinalNeverPartial"]), "C27_FinalNeverPartial"),
+            "one fixed temporary name: names not private": (
+                ex.submit(write_tlc, "wfixed2", unique=False, invariants=["C27_TempNamesPrivate"]), "C27_TempNamesPrivate"),
             "checksum over line-normalised source": (ex.submit(src_tlc, "src_lines", alpha=ALPHABET, maxlen=1, cks="lines"),
                                                      "C27_ChecksumSeparatesSources"),
         }
@@ -1154,6 +1417,10 @@ def run(ck):
             "edit": ex.submit(bcc_tlc, "g_edit", cfgof=("c1",), trunc=(), foreign=False, stages=(),
                               clear_stages=(), graph=True),
         }
+        alias = {"holds": ex.submit(alias_tlc, "alias"), "graph": ex.submit(alias_tlc, "alias_g", graph=True, invariants=("TypeOK",))}
+        ref["key = file name alone (one file, several template names)"] = (
+            ex.submit(alias_tlc, "alias_file", mode="file", invariants=("C27_CodeCompiledForOwnName",)),
+            "C27_CodeCompiledForOwnName")
         for label, f in mc.items():
             r = f.result()
             ck.add_tlc(r, f"BCCache {label}")
@@ -1169,6 +1436,10 @@ def run(ck):
             r = f.result()
             ck.add_tlc(r, f"BCCache graph {label}")
             graphs[label] = edges_of(r)
+        ck.add_tlc(alias["holds"].result(), "BCCacheAlias key = name + file name")
+        r = alias["graph"].result()
+        ck.add_tlc(r, "BCCacheAlias graph")
+        alias_edges = edges_of(r)
         pairs = {}
         for label, f in src.items():
             r = f.result()
@@ -1217,12 +1488,19 @@ def run(ck):
     drift = []
     with ProcessPoolExecutor(max_workers=16) as ex:
         wt = ex.submit(record_write_traces, (ck.seed, 9 if quick else 1))
+        al = ex.submit(replay_alias, (alias_edges, ck.seed))
         results = [ex.submit(replay_component, t) for t in tasks]
         eresults = [ex.submit(replay_edit_pairs, t) for t in etasks]
         results = [f.result() for f in results]
         t2 = time.time()
         ntraces = validate_write_traces(ck, wt.result())
         eresults = [f.result() for f in eresults]
+        ast_ = al.result()
+        ck.extra["alias_edges_replayed"] = ast_["edges"]
+        edges += ast_["edges"]
+        steps += ast_["steps"]
+        for v in ast_["viol"]:
+            ck.violation(v["case"], v["what"], v["fp"])
         ck.extra["phase_wall_s"] = {"tlc": round(t1 - t0, 1), "graph_replay": round(t2 - t1, 1),
                                     "traces_and_edit_pairs_after_that": round(time.time() - t2, 1)}
         ck.extra["edit_pair_walks"] = sum(st["pairs"] for st in eresults)
